@@ -159,6 +159,42 @@ def run(ctx: Ctx) -> None:
     ctx.ob("R20.2", "parser:CxxParser.__init__|file read exactly when content is None", ("content is None", "T") in conds and all(c == "content is None" or "encoding" in c for c, _ in conds),
            msg=f"the file is opened under {conds}: content that was supplied (empty standard input, parse_string('')) must be parsed as it is", node=op[0].stmt if op else init, mod=pm.mod)
 
+    # ---------------------------------------------------------------- R20.6
+    # what codec is used when the caller gives none: evaluated at every decoding site by
+    # constant propagation along the paths from the function entry with encoding=None
+    ctx.rule("R20.6", "the codec used when no encoding is given is the same at every decoding site (file and standard input)", minimum=2)
+    from ..booleval import UNKNOWN, ev as bev, paths_to
+    sites = []  # (label, function, cfg, node, expression)
+    for n in cfg.nodes:
+        for c in n.calls():
+            if isinstance(c.func, ast.Attribute) and c.func.attr == "decode":
+                e = c.args[0] if c.args else next((k.value for k in c.keywords if k.arg == "encoding"), None)
+                sites.append(("simple:parse_file|standard input .decode()", pf, cfg, n, e, sm))
+            if isinstance(c.func, ast.Name) and c.func.id == "open":
+                e = next((k.value for k in c.keywords if k.arg == "encoding"), None)
+                sites.append(("simple:parse_file|open()", pf, cfg, n, e, sm))
+    for n in icfg0.nodes:
+        for c in n.calls():
+            if isinstance(c.func, ast.Name) and c.func.id == "open":
+                e = next((k.value for k in c.keywords if k.arg == "encoding"), None)
+                sites.append(("parser:CxxParser.__init__|open()", init, icfg0, n, e, pm.mod))
+    defaults = {}
+    for label, f, g, n, e, m in sites:
+        vals = set()
+        if e is None:
+            vals.add("<process default>")
+        else:
+            for env in paths_to(g, n, {"encoding": None}, lambda x: None):
+                v = bev(e, env, lambda x: None)
+                vals.add("<not constant>" if v is UNKNOWN else ("<process default>" if v is None else v))
+        defaults[label] = (vals, n, m)
+    allv = set().union(*[v for v, _, _ in defaults.values()]) if defaults else set()
+    ref = defaults.get("parser:CxxParser.__init__|open()", (set(), None, None))[0]
+    for label, (vals, n, m) in sorted(defaults.items()):
+        ctx.ob("R20.6", f"{label} default codec", vals == ref and len(vals) == 1 and not any(v.startswith("<") for v in vals),
+               msg=f"with no encoding given this site decodes with {sorted(vals)} while the file is opened with {sorted(ref)}: the same bytes (a byte-order mark) are read differently from a file and from standard input",
+               node=n.stmt, mod=m, detail={"defaults": sorted(vals)})
+
     # ---------------------------------------------------------------- R20.3
     ctx.rule("R20.3", "parse_string and parse_file are the same pipeline: SimpleCxxVisitor(), CxxParser(that visitor), parse(), return its data", minimum=2)
     for ep in ("parse_file", "parse_string"):
